@@ -120,8 +120,9 @@ def filtered(case, positions):
         v["vals"] = [v["vals"][p] for p in positions]
     if c.get("mask"):
         c["mask"]["vals"] = [c["mask"]["vals"][p] for p in positions]
-    if "times" in c.get("kw", {}):
-        c["kw"]["times"] = [c["kw"]["times"][p] for p in positions]
+    for k in ops.ROW_KW:
+        if k in c.get("kw", {}):
+            c["kw"][k] = [c["kw"][k][p] for p in positions]
     c["layout"] = "contiguous"
     return c
 
